@@ -141,6 +141,33 @@ func allScenarios() []*scenario {
 		c.Cfg.HashID = reftable.SHA256ID
 		out = append(out, &c)
 	}
+	// Deepened variants, explored in the thorough tier only (the quick tier selects scenarios by name):
+	// one more preemption for the preemption-bounded scenarios, and one crash / one injected I/O fault as an
+	// additional deviation for every plain scenario of at most three processes.
+	for _, s := range base {
+		if s.FaultEnum || s.MixedHash {
+			continue
+		}
+		if s.Preempt >= 1 {
+			c := *s
+			c.Name = s.Name + "+deep"
+			c.Preempt = s.Preempt + 1
+			c.Why = s.Why + " [one more preemption]"
+			out = append(out, &c)
+		}
+		if s.Crashes == 0 && s.Faults == 0 && len(s.Procs) <= 3 {
+			c := *s
+			c.Name = s.Name + "+crash"
+			c.Crashes = 1
+			c.Why = s.Why + " [plus one crash of any process at any scheduling point]"
+			out = append(out, &c)
+			f := *s
+			f.Name = s.Name + "+fault"
+			f.Faults = 1
+			f.Why = s.Why + " [plus one injected I/O fault at any filesystem call]"
+			out = append(out, &f)
+		}
+	}
 	return out
 }
 
